@@ -8,6 +8,8 @@
 //        prim = mtx | sem | sig | mon | thr ; init = initial count (sem) / initially set (sig)
 //        ops  = lock try-<skip> unlock | signal wait twait-<ms> trywait | set reset wait twait-<ms> |
 //               lock try-<skip> unlock wait twait-<ms> set | start-<j> mstart-<j> (member-function overload) xstart-<8j+k> (same on object j with the body of program k) join-<j> dtor-<j> (~Thread) | destroy (sig, mon: delete the object)
+//               glock gunlock (mtx, mon: Mutex::Guard / Monitor::Guard constructed / destroyed) gwait gtwait-<ms> (mon: Guard::wait of the
+//               innermost guard of the thread) | tid (Thread::getCurrentThreadId() == gettid) yield (Thread::yield) - any primitive
 //        try-<skip>: on failure the next <skip> ops of the thread are skipped
 //   run <t.a>,<t.a>,...    (or `run -`)  explicit schedule prefix, default policy afterwards
 //        -> init:<events> <t.a>/<candidates>:<events> ... | <verdict>
@@ -23,6 +25,7 @@
 #include <unistd.h>
 #include <signal.h>
 #include <sys/wait.h>
+#include <sys/syscall.h>
 #include <stdarg.h>
 #include <nstd/Debug.hpp>
 
@@ -34,7 +37,7 @@ int Debug::printf(const char* format, ...)
 }
 
 enum Prim { P_NONE, P_MTX, P_SEM, P_SIG, P_MON, P_THR };
-enum OpK { K_LOCK, K_TRY, K_UNLOCK, K_SIGNAL, K_WAIT, K_TWAIT, K_TRYWAIT, K_SET, K_RESET, K_START, K_MSTART, K_XSTART, K_JOIN, K_DTOR, K_DESTROY };
+enum OpK { K_GLOCK, K_GUNLOCK, K_GWAIT, K_GTWAIT, K_TID, K_YIELD, K_LOCK, K_TRY, K_UNLOCK, K_SIGNAL, K_WAIT, K_TWAIT, K_TRYWAIT, K_SET, K_RESET, K_START, K_MSTART, K_XSTART, K_JOIN, K_DTOR, K_DESTROY };
 struct Op { OpK k; long arg; };
 struct Prog { Op ops[64]; int n; unsigned long ret; };
 
@@ -58,6 +61,9 @@ static void leave(int t)
   if(--occDepth == 0) occOwner = -1;
 }
 
+// guards held by each thread (innermost last)
+static Mutex::Guard* mguard[SCHED_MAXT][16]; static Monitor::Guard* nguard[SCHED_MAXT][16]; static int nguards[SCHED_MAXT];
+
 static uint body(void* p);
 struct Body { int t; uint run(); };   // thread body for the member-function overload of Thread::start
 static Body bodies[SCHED_MAXT];
@@ -73,6 +79,29 @@ static void runProg(int t)
     case K_LOCK:
       if(prim == P_MTX) mtx->lock(); else mon->lock();
       enter(t); sched_event("%d=v", k); break;
+    case K_GLOCK:    // Mutex::Guard / Monitor::Guard: the constructor locks
+      if(nguards[t] == 16) { sched_flag("guard-depth"); break; }
+      if(prim == P_MTX) mguard[t][nguards[t]++] = new Mutex::Guard(*mtx); else nguard[t][nguards[t]++] = new Monitor::Guard(*mon);
+      enter(t); sched_event("%d=v", k); break;
+    case K_GUNLOCK:  // ... and the destructor unlocks
+      if(nguards[t] == 0) { sched_flag("guard-depth"); break; }
+      if(prim == P_MTX) delete mguard[t][--nguards[t]]; else delete nguard[t][--nguards[t]];
+      leave(t); sched_event("%d=v", k); break;
+    case K_GWAIT: case K_GTWAIT:   // Monitor::Guard::wait() / wait(timeout) forward to the monitor
+    {
+      if(nguards[t] == 0) { sched_flag("guard-depth"); break; }
+      Monitor::Guard* g = nguard[t][nguards[t] - 1];
+      leave(t);
+      bool r = o.k == K_GWAIT ? g->wait() : g->wait((int64)o.arg);
+      enter(t);
+      sched_event("%d=%d", k, r ? 1 : 0); break;
+    }
+    case K_TID:      // Thread::getCurrentThreadId(): the kernel's id of the calling thread (no POSIX call of the simulated layer)
+    {
+      uint32 id = Thread::getCurrentThreadId();
+      sched_event("%d=%d", k, id != 0 && id == (uint32)syscall(SYS_gettid) ? 1 : 0); break;
+    }
+    case K_YIELD: Thread::yield(); sched_event("%d=v", k); break;
     case K_TRY:
     {
       bool r = prim == P_MTX ? mtx->tryLock() : mon->tryLock();
@@ -158,6 +187,12 @@ static bool parseOp(char* s, Op& o)
   o.arg = arg;
   bool m = prim == P_MTX, se = prim == P_SEM, si = prim == P_SIG, mo = prim == P_MON;
   if(!strcmp(s, "lock") && !dash && (m || mo)) o.k = K_LOCK;
+  else if(!strcmp(s, "glock") && !dash && (m || mo)) o.k = K_GLOCK;
+  else if(!strcmp(s, "gunlock") && !dash && (m || mo)) o.k = K_GUNLOCK;
+  else if(!strcmp(s, "gwait") && !dash && mo) o.k = K_GWAIT;
+  else if(!strcmp(s, "gtwait") && dash && mo) o.k = K_GTWAIT;
+  else if(!strcmp(s, "tid") && !dash) o.k = K_TID;
+  else if(!strcmp(s, "yield") && !dash) o.k = K_YIELD;
   else if(!strcmp(s, "try") && dash && (m || mo)) o.k = K_TRY;
   else if(!strcmp(s, "unlock") && !dash && (m || mo)) o.k = K_UNLOCK;
   else if(!strcmp(s, "signal") && !dash && se) o.k = K_SIGNAL;
@@ -230,6 +265,7 @@ static void child(int np, const int* pt, const int* pa, unsigned long long seed)
   sched_begin(np, pt, pa, clkSec, clkNsec, quantum, spur, eintr, seed);
   sched_set_create_failures(createFail);
   occOwner = -1; occDepth = 0;
+  for(int i = 0; i < SCHED_MAXT; ++i) nguards[i] = 0;
   if(prim == P_MTX) mtx = new Mutex;
   if(prim == P_SEM) sem = new Semaphore((uint)initVal);
   if(prim == P_SIG) sig = new Signal(initVal != 0);
